@@ -38,16 +38,17 @@ class Interval(object):
             these values into a masked array
             """
             values = np.zeros(x.shape, bool)
-            is_above = (x[I] > self.lower) | (self.lower_eq and x[I] == self.lower)
-            is_below = (x[I] < self.upper) | (self.upper_eq and x[I] == self.upper)
+            # An infinite boundary means that the interval is unbounded on that side
+            is_above = (x[I] > self.lower) | (self.lower_eq and x[I] == self.lower) | (self.lower == -np.inf)
+            is_below = (x[I] < self.upper) | (self.upper_eq and x[I] == self.upper) | (self.upper == np.inf)
             values[I] = is_above & is_below
             values = np.ma.masked_array(values, mask=np.isnan(x))
         else:
             if np.isnan(x):
                 values = np.nan
             else:
-                is_above = (x > self.lower) | (self.lower_eq and x == self.lower)
-                is_below = (x < self.upper) | (self.upper_eq and x == self.upper)
+                is_above = (x > self.lower) | (self.lower_eq and x == self.lower) | (self.lower == -np.inf)
+                is_below = (x < self.upper) | (self.upper_eq and x == self.upper) | (self.upper == np.inf)
                 values = (is_above & is_below)
 
         return values
